@@ -370,6 +370,7 @@ CHECKS['C16']['level_text'] += ' One job drives the real RealDiskInterface (Writ
 CHECKS['C17']['jobs'] += _mode_jobs('MODE_CYCLE', [39], reach=('acyclic-built', 'reorganised'), bounds='a depfile / deps-log record naming a file that the reorganised manifest (second invocation) generates from the recording statement itself, whose command line changed: no cycle exists, none may be reported')
 CHECKS['C06']['jobs'] += _mode_jobs('MODE_SCHED', [40], reach=('built',), bounds='a phony statement bound to the console pool becomes ready in the middle of the build; -j in {1,2,3}, every completion order')
 CHECKS['C20']['jobs'] += _mode_jobs('MODE_STATUS', [40], reach=('success', 'output-shown'), bounds='a phony statement bound to the console pool becomes ready in the middle of the build; -j in {1,2,3}, each command prints or not, every completion order')
+CHECKS['C20']['jobs'] += _mode_jobs('MODE_STATUS', [9, 5], extra=['SMART_TERMINAL', 'WITH_FAILURES'], suffix='_smart', reach=('success', 'failure', 'output-shown', 'smart-terminal'), bounds='stdout is a terminal of unknown width, 24 or 200 columns (LinePrinter smart mode: overprinted, elided status lines); -j in {1,2,3}, each command prints or not, any subset fails, -k in {1,2}, every completion order')
 
 # ---- the real process layer (RealCommandRunner, SubprocessSet, Subprocess, PosixJobserverClient) over the modelled operating system of harness/osmodel.h
 _OS_WRAP = ['pipe', 'close', 'read', 'write', 'open', 'fstat', 'sigemptyset', 'sigaddset', 'sigismember', 'sigprocmask', 'sigpending', 'sigaction', 'posix_spawn_file_actions_init', 'posix_spawn_file_actions_destroy',
@@ -403,7 +404,7 @@ CHECKS['C06']['level_note'] = CHECKS['C06']['level_note'].replace('RealCommandRu
 CHECKS['C07']['level_text'] += _MAIN + _PROCS + ' In the *_procs interrupt jobs ninja must signal exactly the process groups of the commands that do not share its terminal, with the signal it received, reap every child and restore its handlers.'
 CHECKS['C17']['level_text'] += _MAIN
 CHECKS['C20']['level_text'] += _MAIN + _PROCS + ' There a command\'s output reaches ninja through Subprocess::OnPipeReady in one or two reads, interleaved with the other commands\' events.'
-CHECKS['C20']['level_note'] = CHECKS['C20']['level_note'].replace('The subprocess pipes (Subprocess::OnPipeReady), the smart-terminal path', 'The smart-terminal path')
+CHECKS['C20']['level_note'] = CHECKS['C20']['level_note'].replace('The subprocess pipes (Subprocess::OnPipeReady), the smart-terminal path (ioctl, cursor control) and custom status formats are outside this check', 'The *_smart jobs run LinePrinter in smart-terminal mode (isatty and ioctl(TIOCGWINSZ) answered by the harness). Custom status formats are outside this check')
 CHECKS['C19']['level_text'] += _MAIN + ' The *_tools jobs run, from a fully built and then perturbed tree, one of -t commands, commands -s, inputs, multi-inputs, query, targets (all, rule, depth), rules, graph, compdb, compdb -x, compdb-targets, deps, missingdeps, or -n, through real_main on a symbolic target: no command may start, the tree and both logs must be byte-identical afterwards, what the tool prints is compared with the declared-input reference (commands in dependency order, inputs, kinds, compdb parsed as JSON and compared entry by entry), and the next real build must start exactly the commands a control build from the same state starts (the state is saved, the control build is run, the state is restored).'
 CHECKS['C19']['level_note'] = CHECKS['C19']['level_note'].replace("The read-only tools of ninja.cc (-t commands, inputs, query, targets, rules, graph, compdb, deps, missingdeps) are not driven: only their JSON string encoder and the dry-run path are encoded; directory", "The read-only tools are driven through real_main on the catalogue shapes (browse, msvc, urtle and wincodepage are not); their output is compared with the reference for commands, inputs, query, targets all and compdb, the others are only checked for being read-only. Directory")
 CHECKS['C19']['assumptions'] = [a for a in CHECKS['C19']['assumptions'] if 'tools themselves are outside' not in a] + ['tool output is compared with the reference on the catalogue shapes only; JSON string encoding is checked on arbitrary bytes separately']
